@@ -43,7 +43,7 @@ def declare(spec):
     K["IntListState"] = T("int")
     K["IntMatrix"] = T("list:IntListState")
     # ---- dict kinds: (key type, value type)
-    K["PNE"] = (T("str"), T("tup2:val,num"))           # possible_next_events
+    K["PNE"] = (T("str"), T("tup2:val,time"))           # possible_next_events
     K["Baulk"] = (T("str"), T("opt:fn"))
     K["ClassChange"] = (T("str"), T("dict:ClassChangeRow"))
     K["ClassChangeRow"] = (T("str"), T("num"))
@@ -60,7 +60,7 @@ def declare(spec):
     K["ClassOrdering"] = (T("str"), T("int"))
 
     F(spec, "Simulation",
-      current_time="num", network="obj:Network", NodeTypes="list:NodeTypes", ArrivalNodeType="fn",
+      current_time="time", network="obj:Network", NodeTypes="list:NodeTypes", ArrivalNodeType="fn",
       ExitNodeType="fn", IndividualType="fnconst:Individual", ServerType="fnconst:Server", name="str",
       deadlock_detector="obj:NoDetection", inter_arrival_times="dict:DistByNode",
       service_times="dict:DistByNode", batch_sizes="dict:DistByNode", number_of_priority_classes="int",
@@ -71,13 +71,13 @@ def declare(spec):
     F(spec, "Node",
       simulation="obj:Simulation", server_priority_function="opt:fn", service_discipline="fn",
       next_event_type="opt:str", schedule="opt:obj:Schedule", c="intinf", slotted="bool",
-      next_event_date="num", next_shift_change="num", node_capacity="intinf",
+      next_event_date="time", next_shift_change="time", node_capacity="intinf",
       class_change="opt:dict:ClassChange", individuals="list:IndOuter", number_of_individuals="int",
       number_in_service="int", id_number="int", baulking_functions="dict:Baulk", overtime="list:NumList",
       blocked_queue="list:BlockedQ", len_blocked_queue="int", servers="list:Servers", highest_id="intinf",
       priority_preempt="orfalse:str", interrupted_individuals="list:Interrupted",
       number_interrupted_individuals="int", all_servers_total="list:NumList", all_servers_busy="list:NumList",
-      reneging="bool", dynamic_classes="bool", next_class_change_date="num", next_individual="val",
+      reneging="bool", dynamic_classes="bool", next_class_change_date="time", next_individual="val",
       next_class_change_ind="opt:obj:Individual", possible_next_events="dict:PNE",
       server_utilisation="opt:num")
     F(spec, "PSNode", last_occupancy="int", ps_threshold="int", ps_capacity="intinf", date_last_update="num")
@@ -88,23 +88,23 @@ def declare(spec):
       previous_class="str", priority_class="int", prev_priority_class="int", original_class="str",
       is_blocked="bool", server="bool || obj:Server", queue_size_at_arrival="date",
       queue_size_at_departure="date", destination="date", interrupted="bool", node="date", simulation="val",
-      reneging_date="num", class_change_date="num", next_class="str", time_left="num",
+      reneging_date="time", class_change_date="time", next_class="str", time_left="num",
       original_service_time=SERVTIME, original_service_start_date="date", with_server="bool",
       date_last_update="num", route="list:Route", starting_node="int")
 
     F(spec, "Server",
       node=NODE, id_number="int", cust="orfalse:obj:Individual", busy="bool", offduty="bool", all_time="val",
-      start_date="num", busy_time="num", total_time="date", shift_end="date", next_end_service_date="num")
+      start_date="num", busy_time="num", total_time="date", shift_end="date", next_end_service_date="time")
 
     F(spec, "ArrivalNode",
       simulation="obj:Simulation", number_of_individuals="int", number_of_individuals_per_class="dict:CountByClass",
       number_accepted_individuals="int", number_accepted_individuals_per_class="dict:CountByClass",
       system_capacity="intinf", event_dates_dict="dict:EvDates", next_node="opt:int", next_class="opt:str",
-      next_event_date="num")
+      next_event_date="time")
 
     F(spec, "ExitNode",
       all_individuals="list:ExitList", number_of_individuals="int", number_of_completed_individuals="int",
-      id_number="int", next_event_date="num", node_capacity="intinf")
+      id_number="int", next_event_date="time", node_capacity="intinf")
 
     F(spec, "Schedule",
       schedule_type="str", shift_end_dates="list:NumList", numbers_of_servers="list:IntList",
